@@ -741,8 +741,10 @@ class TypeBlocks(ContainerOperand):
                     else:
                         yield b[index_ic.iloc_src_fancy(), columns_ic.iloc_src]
                 else:
+                    # one of the two axes can be without common labels: iloc_src / iloc_dst are then None
                     columns_dst_to_src = dict(
-                            zip(columns_ic.iloc_dst, columns_ic.iloc_src)) #type: ignore [arg-type]
+                            zip(columns_ic.iloc_dst, columns_ic.iloc_src) #type: ignore [arg-type]
+                            ) if columns_ic.has_common else {}
 
                     for idx in range(columns_ic.size):
                         if idx in columns_dst_to_src:
@@ -758,10 +760,11 @@ class TypeBlocks(ContainerOperand):
                                 values = full_for_fill(b.dtype,
                                         index_ic.size,
                                         fill_value)
-                                if b.ndim == 1:
-                                    values[index_ic.iloc_dst] = b[index_ic.iloc_src]
-                                else:
-                                    values[index_ic.iloc_dst] = b[index_ic.iloc_src, block_col]
+                                if index_ic.has_common:
+                                    if b.ndim == 1:
+                                        values[index_ic.iloc_dst] = b[index_ic.iloc_src]
+                                    else:
+                                        values[index_ic.iloc_dst] = b[index_ic.iloc_src, block_col]
                                 values.flags.writeable = False
                                 yield values
                         else:
